@@ -172,17 +172,13 @@ func runC03(c *Ctx) {
 		}
 		scanned++
 		for _, fd := range allFuncDecls(p) {
-			ast.Inspect(fd.Body, func(n ast.Node) bool {
-				if call, ok := n.(*ast.CallExpr); ok {
-					if fn := calleeOf(p.TypesInfo, call); fn != nil && fullName(fn) == "encoding/json.(Encoder).SetEscapeHTML" {
-						nset++
-						c.viol("C03.R2", funcKey(p, fd)+"|SetEscapeHTML", c.pos(call.Pos()), "SetEscapeHTML is called: JSON written into a <script> position could contain </script>, <!-- or U+2028 verbatim")
-					}
-				}
-				return true
-			})
+			for _, call := range findSetEscapeHTML(p.TypesInfo, fd.Body) {
+				nset++
+				c.viol("C03.R2", funcKey(p, fd)+"|SetEscapeHTML", c.pos(call.Pos()), "SetEscapeHTML is called: JSON written into a <script> position could contain </script>, <!-- or U+2028 verbatim")
+			}
 		}
 	}
+	controlSetEscapeHTML(c)
 	c.count("packages_scanned_for_SetEscapeHTML", scanned)
 	c.ok("C03.R2", modPath+"|no-SetEscapeHTML", "", fmt.Sprintf("%d packages scanned, %d calls", scanned, nset))
 	// the JSON producers of script positions use encoding/json directly
